@@ -185,12 +185,25 @@ func (r *Reader) Info() (*Info, error) {
 	if r.rs == nil {
 		return nil, fmt.Errorf("cannot get info from non-seekable reader")
 	}
+	// reading the summary moves the shared stream; leave it where it was, so that a sequential read that
+	// follows continues from the same place
+	pos, err := r.rs.Seek(0, io.SeekCurrent)
+	if err != nil {
+		return nil, fmt.Errorf("failed to get current stream position: %w", err)
+	}
 	it := r.indexedMessageIterator(&ReadOptions{
 		UseIndex: true,
 	})
-	err := it.parseSummarySection()
+	err = it.parseSummarySection()
 	if err != nil {
+		if _, seekErr := r.rs.Seek(pos, io.SeekStart); seekErr != nil {
+			return nil, fmt.Errorf("%w (and failed to restore stream position: %v)", err, seekErr)
+		}
 		return nil, err
+	}
+	_, err = r.rs.Seek(pos, io.SeekStart)
+	if err != nil {
+		return nil, fmt.Errorf("failed to restore stream position: %w", err)
 	}
 	info := &Info{
 		Statistics:        it.statistics,
